@@ -146,7 +146,7 @@ def run_threads(cfg, preempt=None, opcode=False):
     consumers = []  # controlled-thread idx of consumer j
 
     with ctl.patched(patches):
-        hs = (ctl.Event("started"), ctl.Event("go")) if cfg.get("handshake") else None
+        hs = (ctl.Event("started"), ctl.Event("go"), ctl.Event("raised")) if cfg.get("handshake") else None
         down = Downstream(ctl, cfg.get("raises", []), hs)
         if kind == "pool":
             pending = []
@@ -169,7 +169,16 @@ def run_threads(cfg, preempt=None, opcode=False):
                             cond.wait()
                         a = pending.pop(0)
                         ctl.ev("runBegin")
-                    a(sched, None)
+                    if cfg.get("catching"):
+                        # a pool whose workers survive a raising task (concurrent.futures-like): the scheduler stays alive
+                        try:
+                            a(sched, None)
+                        except InjectedError:
+                            ctl.ev("action_raised")
+                            if hs is not None:
+                                hs[2].set()
+                    else:
+                        a(sched, None)
 
         else:
             from reactivex.scheduler import EventLoopScheduler, NewThreadScheduler
@@ -195,6 +204,8 @@ def run_threads(cfg, preempt=None, opcode=False):
                 for n, c in enumerate(prog):
                     if hs is not None and n == 1:
                         hs[0].wait()  # emit the 2nd notification while the 1st is being delivered
+                    if hs is not None and n == 2 and cfg.get("catching"):
+                        hs[2].wait()  # emit the 3rd notification only after the raising delivery has faulted the observer
                     me.local["item"] = c[1]
                     ctl.ev("call", c[0], c[1])
                     if c[0] == "N":
@@ -327,6 +338,12 @@ def oracle(cfg, res):
     received = [e[2] for e in ev if e[1] == "append"]
     delivered = [(e[2], e[3]) for e in ev if e[1] == "dstart"]
     exp = [kind_of[i] for i in received]
+    seen_raise = False
+    for e in ev:
+        if e[1] == "dend" and e[2]:
+            seen_raise = True
+        elif e[1] == "dstart" and seen_raise:
+            return f"a delivery ({e[2]}, {e[3]}) started after an earlier delivery raised"
     if delivered != exp[: len(delivered)]:
         return f"delivered {delivered} is not a prefix of received {exp}"
     depth = 0
